@@ -1,2 +1,17 @@
 import TinsModel.Props.C10
-#print axioms Tins.Props.C10.fresh_sections
+#print axioms Tins.Props.C10.reachable_inv
+#print axioms Tins.Props.C10.getters_noFault_fails
+#print axioms Tins.Props.C10.getters_noFault_partial
+#print axioms Tins.Props.C10.edit_noFault_fails
+#print axioms Tins.Props.C10.edit_noFault_partial
+#print axioms Tins.Props.C10.parse_noFault
+#print axioms Tins.Props.C10.applyEdit_refines
+#print axioms Tins.Props.C10.runEdits_refines
+#print axioms Tins.Props.C10.observe_mkMsg
+#print axioms Tins.Props.C10.sections_refine_fresh
+#print axioms Tins.Props.C10.sections_refine_parsed
+#print axioms Tins.Props.C10.reparse_sections
+#print axioms Tins.Props.C10.name_roundtrip
+#print axioms Tins.Props.C10.loops_rejected
+#print axioms Tins.Props.C10.self_pointer_rejected
+#print axioms Tins.Props.C10.compose_sound
